@@ -142,18 +142,41 @@ def null_tests(fn, ref):
     identical to `ref` against null/zero"""
     out = []
     want = fn.sources(ref)
+
+    def nonnull_sources(v):
+        # phi(NULL, x) tested against NULL is a test of x (loop-carried "not yet found" initialisers)
+        return set(k for k in fn.sources(v) if not (k.startswith('{') and ('"null": true' in k or '"c": 0' in k)))
+    def spin_phi(x):
+        # x is the loop-carried variable of the innermost loop that contains the producing instruction
+        # (while (!v) v = produce();), not some other variable that merely holds an older result
+        xi = fn.insts.get(fn.strip(x))
+        while xi is not None and xi.op == 'phi' and len(xi.d['incoming']) == 1:
+            xi = fn.insts.get(fn.strip(xi.d['incoming'][0][0]))
+        if xi is None or xi.op != 'phi':
+            return False
+        for k in want:
+            d = fn.insts.get(k)
+            if d is None:
+                return False
+            li = fn.loop_of_block(d.block.id)
+            if li is None or fn.loops[li]['header'] != xi.block.id:
+                return False
+        return True
     for ins in fn.order:
         if ins.op != 'icmp' or ins.pred not in ('eq', 'ne'):
             continue
         a, b = ins.ops
         for x, y in ((a, b), (b, a)):
             if isinstance(y, dict) and (y.get('null') or y.get('c') == 0):
-                if fn.sources(x) == want:
-                    for br, t, f in fn.cond_edges(ins.id):
-                        if ins.pred == 'ne':
-                            out.append((br, t, f))
-                        else:
-                            out.append((br, f, t))
+                if fn.sources(x) == want or (isinstance(x, str) and nonnull_sources(x) == want and spin_phi(x)):
+                    for cond, pol in cond_chain(fn, ins.id):
+                        for br, t, f in fn.cond_edges(cond):
+                            # (cond true) == (icmp true) iff pol
+                            istrue_t, istrue_f = (t, f) if pol else (f, t)
+                            if ins.pred == 'ne':
+                                out.append((br, istrue_t, istrue_f))
+                            else:
+                                out.append((br, istrue_f, istrue_t))
     return out
 
 
@@ -718,3 +741,31 @@ def find_unit_with(ctx, fl, fname, candidates=None):
         if m.fn(fname) is not None:
             return f
     return None
+
+
+def callers_of(ctx, fl, names):
+    """{callee: {caller_function: loc}} over every TU of flavour fl (non-inlined IR; direct calls and
+    address-taken uses, the latter reported under caller '&<user>')"""
+    names = set(names)
+    out = {n: {} for n in names}
+    files = sorted(ctx.db['src'][fl])
+    ctx.prefetch([(f, fl, 'src') for f in files])
+    for file in files:
+        m = ctx.ssa(file, fl)
+        for fn in m.functions.values():
+            for ins in fn.order:
+                if ins.op == 'call' and ins.callee in names:
+                    out[ins.callee].setdefault(fn.name, ins.loc)
+                blob = None
+                for a in list(ins.d.get('args', [])) + list(ins.d.get('ops', [])):
+                    if isinstance(a, dict) and a.get('fn') in names:
+                        out[a['fn']].setdefault('&' + fn.name, ins.loc)
+    return out
+
+
+def cas_on(fn, field):
+    return [c for c in fn.order if c.op == 'cmpxchg' and fn.field(c) == field]
+
+
+def const_ret(val):
+    return const_int(val) if isinstance(val, dict) else None
